@@ -1184,8 +1184,15 @@ class Alias(ObjectAliasMixin):
         # and therefore correct paths. The path of an alias member
         # should be the path of the alias plus the member's name,
         # not the original member's path.
+        # A member that is an alias not resolved yet is targeted by its path: the new alias
+        # must not be born resolved over a chain that is not (it gets resolved with that chain).
         return {
-            name: Alias(name, target=member, parent=self, inherited=False)
+            name: Alias(
+                name,
+                target=member.path if member.is_alias and not member.resolved else member,  # type: ignore[union-attr]
+                parent=self,
+                inherited=False,
+            )
             for name, member in final_target.members.items()
         }
 
